@@ -7,6 +7,13 @@ from sa.props.c10 import check_table, permitted_relation
 from sa import k1
 
 
+def _lit(x):
+    try:
+        return ast.literal_eval(x)
+    except (ValueError, SyntaxError):
+        return x
+
+
 def fmt_seq(seq):
     return ', '.join('%s%s' % (s, '(encoding=..)' if d else '()') for s, d in seq)
 
@@ -142,7 +149,7 @@ def run(P, rep, tier):
 
     # ---- R5 choice-valued options: an accepted call has a value of the specification's choice set ------------
     r5 = rep.rule('C09-R5', 'a call given a choice-valued option (not None) is accepted only with a value of the '
-                  'specification\'s choice set; an option tested against a finite set on one accepted path is tested on all', reference=6)
+                  'specification\'s choice set', reference=4)
     SPEC_CHOICES = {'line_endings': {'dos', 'unix'}, 'mimetype': {'text/plain', 'text/markdown'},
                     'diff_type': {'text', 'binary'}, 'meta_format': {'json'}}
     cons = {}
@@ -152,11 +159,11 @@ def run(P, rep, tier):
     for (call, pname), variants in sorted(cons.items()):
         want = SPEC_CHOICES.get(pname)
         finite = [c_ for (c_, _n) in variants if c_ is not None]
-        if want is None and not finite:
+        if want is None:
             continue              # free-form option (encoding, indent): validated by other means (R2/R4)
         bad = []
         for (c_, note), seq in sorted(variants.items(), key=str):
-            vals = None if c_ is None else {ast.literal_eval(x) for x in c_}
+            vals = None if c_ is None else {_lit(x) for x in c_}
             if vals is None:
                 bad.append(('accepted with %s' % (note or 'an unconstrained value'), seq))
             elif want is not None and not vals <= want:
